@@ -21,9 +21,9 @@ def reads : Act → List Nat
   | .move _ t => [t]
   | .swap a b => [a, b]
   | .give v _ => [v]
-  | .incE _ _ v => [v]
-  | .takeE _ _ v => [v]
-  | .putE _ t v => [t, v]
+  | .incE _ _ _ v => [v]
+  | .takeE _ _ _ v => [v]
+  | .putE _ _ t v => [t, v]
   | _ => []
 
 /-- slots a step overwrites (the old pointer is gone afterwards) -/
@@ -33,9 +33,9 @@ def overwrites : Act → List Nat
   | .move d _ => [d]
   | .setInl d _ _ => [d]
   | .clr t => [t]
-  | .incE t _ _ => [t]
-  | .takeE t _ _ => [t]
-  | .takeF t _ => [t]
+  | .incE t _ _ _ => [t]
+  | .takeE t _ _ _ => [t]
+  | .takeF t _ _ => [t]
   | _ => []
 
 structure Gh where
